@@ -164,11 +164,13 @@ theorem unpackSVCB_noFuel (msg : Bytes) (off len : Nat) : NoFuel (unpackSVCB msg
     · rename_i e he; exact (unpackName_noFuel msg off1).of_error he
     · rename_i t off2 h2
       split
-      · rename_i e he; exact (svcbPass1_noFuel msg _ _ off2 none (by omega)).of_error he
-      · rename_i l h3
-        split
-        · rename_i e he; exact (svcbPass2_noFuel msg l).of_error he
-        · exact noFuel_ok _
+      · intro hf; cases hf
+      · split
+        · rename_i e he; exact (svcbPass1_noFuel msg _ _ off2 none (by omega)).of_error he
+        · rename_i l h3
+          split
+          · rename_i e he; exact (svcbPass2_noFuel msg l).of_error he
+          · exact noFuel_ok _
 
 theorem unpackBody_noFuel (msg : Bytes) (off typ len : Nat) : NoFuel (unpackBody msg off typ len) := by
   by_cases k1 : typ = 1
